@@ -13,6 +13,13 @@ for d in sorted(glob.glob(os.path.join(V, "seeded", "*"))):
     missed = [c for c in ran if c not in caught]
     needs = " ".join(m.get("what_it_needs", "").split())[:160]
     rows.append((m.get("name", os.path.basename(d)), m.get("property", "?"), "yes" if m.get("confirmed") else "NO", ", ".join(caught) or "none", ", ".join(missed) or "-", needs))
+import sys
+if "--compact" in sys.argv:
+    print("| seeded change | breaks | caught by | run, not caught |")
+    print("|---|---|---|---|")
+    for r in rows:
+        print("| %s | %s | %s | %s |" % (r[0], r[1], r[3], r[4]))
+    sys.exit(0)
 print("| seeded change | breaks | confirmed | caught by | run, not caught | what it needs |")
 print("|---|---|---|---|---|---|")
 for r in rows:
